@@ -15,7 +15,8 @@ every elaborated message type (the hypothesis of C01–C07), the per-rule bounda
 the tie of the numeric limits to the validators' source text.  **The "iff" against the real
 compiler is established by correspondence** (every generated valid program and single-violation
 mutant must get the same verdict, rule family, file and line from `bitproto.parser.parse` and from
-this reference); the text level (lexer, PLY automaton) is outside the model.
+this reference).  The text level is modelled as well (`Lex.lex → Parse.parseText`, tied to PLY's behaviour by the
+text-level correspondence): `C08_text_accept_wf` carries the well-formedness statement to source TEXTS.
 -/
 namespace Bp.C08
 open Bp Front
@@ -95,5 +96,27 @@ theorem C08_text_examples :
     Parse.textVerdict "message M { }\n" = "proto-name-undefined@0" ∧
     Parse.textVerdict "proto a\nmessage M { bool type = 1 }\n" = "accept" := by
   refine ⟨?_, ?_, ?_, ?_, ?_, ?_, ?_, ?_, ?_, ?_⟩ <;> decide +kernel
+
+/-- a verdict that names a rule is never the word `accept` (every such verdict contains `@`) -/
+theorem verdict_ne_accept (r l : String) : r ++ "@" ++ l ≠ "accept" := by
+  intro h
+  have h2 : '@' ∈ (r ++ "@" ++ l).toList := by simp [String.toList_append]
+  rw [h] at h2
+  revert h2
+  decide
+
+/-- the text-level statement: a source text the pipeline accepts elaborates to an entity whose message types are all
+    well-formed (widths 1..64, capacities 1..65535, field numbers 1..255 unique and ascending, at most 65535 bits) — for
+    EVERY text, whatever its options say (a satisfied `max_bytes` does not lift the 65535-bit limit) -/
+theorem C08_text_accept_wf (text : String) (h : Parse.textVerdict text = "accept") :
+    ∃ e, checkProgram [{ name := "m", proto := (Parse.parseText text.toList).proto,
+                          items := (Parse.parseText text.toList).items }] "m" false = .ok e ∧
+      ∀ t ∈ msgTys e, t.wf = true := by
+  unfold Parse.textVerdict at h
+  simp only at h
+  split at h
+  · rename_i e he
+    exact ⟨e, he, C08_accept_wf _ _ _ e he⟩
+  · exact absurd h (verdict_ne_accept _ _)
 
 end Bp.C08
